@@ -1102,11 +1102,15 @@ impl CollectUnicodes for Cmap12<'_> {
             let mut end = group.end_char_code().min(UNICODE_MAX);
             let mut gid = group.start_glyph_id();
             if gid == 0 {
-                start += 1;
+                // a group that starts at the last 32 bit value has nothing after its first code point
+                let Some(next) = start.checked_add(1) else {
+                    continue;
+                };
+                start = next;
                 gid += 1;
             }
 
-            if gid as usize >= num_glyphs {
+            if gid as usize >= num_glyphs || start > end {
                 continue;
             }
 
